@@ -103,6 +103,10 @@ def one_dir(ctx, res, rng, d):
         for is_zoq, loc in ((False, ""), (True, ""), (False, "sub/"), (True, "sub/")):
             ext = ".zoq" if is_zoq else ".zo"
             lines, exps = ["# Scratch page" if not is_zoq else "# scratch (not a query)", ""], [None, None]
+            if (is_zoq, loc) in ((True, ""), (False, "sub/")):
+                # characters that str.splitlines() takes for line breaks, above every requested line: the line number the editor
+                # passes counts "\n" only
+                lines[0] += " \x0c page break \u2028 pasted \x85 text\x1c"
             # pinned lines on every page: a link to a page that is missing at the root (but has a neighbour in sub/), alone and with
             # company, and a target whose extension holds a digit
             for line, exp, prim in (("- see [[nosuch]] there", ["[[nosuch]]"], None),
@@ -212,7 +216,7 @@ def classify(f: C.Failure, entry: dict) -> bool:
 
 
 RULE = (
-    "scratch pages (.zo and .zoq, at the root and in a sub-directory holding a same-named neighbour of a missing link target) on indexed directories with 40 / 12 generated lines each: any kind prefix, priority, modify date, primary ZID, 0-5 targets "
+    "scratch pages (.zo and .zoq, at the root and in a sub-directory holding a same-named neighbour of a missing link target; two of the four with form feed / U+2028 / NEL / FS in the header line) on indexed directories with 40 / 12 generated lines each: any kind prefix, priority, modify date, primary ZID, 0-5 targets "
     "of every kind (page links with / without anchor, local, global, reference links, bare and bracketed ZIDs) between plain words, with surrounding "
     "punctuation; `zorg action open PATH LINE [IDX]` in-process: protocol lines only, PROMPT lists exactly the targets in order, option k / -1 equals the "
     "answer for a line holding only that target, out-of-range options, resolution of single targets against the raw index; all also vs the Lean Action model"
